@@ -1122,6 +1122,10 @@ func (c1 complexConst) binaryOp(op ast.OperatorType, c2 constant) (constant, err
 		if n2.zero() {
 			return nil, errComplexDivisionByZero
 		}
+		// Operate on the integer parts as rationals, so that the quotients
+		// are not truncated and the intermediate products do not overflow.
+		n1 = complexConst{r: intToRat(n1.r), i: intToRat(n1.i)}
+		n2 = complexConst{r: intToRat(n2.r), i: intToRat(n2.i)}
 		// s = cc + dd
 		cc, _ := n2.r.binaryOp(ast.OperatorMultiplication, n2.r)
 		dd, _ := n2.i.binaryOp(ast.OperatorMultiplication, n2.i)
@@ -1193,6 +1197,18 @@ func (c1 complexConst) equals(c2 constant) bool {
 		return d1.equals(d2)
 	}
 	return n1.r.equals(n2.r) && n1.i.equals(n2.i)
+}
+
+// intToRat returns c as a ratConst if c is an integer constant, otherwise it
+// returns c.
+func intToRat(c constant) constant {
+	switch c := c.(type) {
+	case int64Const:
+		return newRatConst(int64(c), 1)
+	case intConst:
+		return ratConst{r: new(big.Rat).SetInt(c.i)}
+	}
+	return c
 }
 
 // toSameConstImpl returns the two constants with the same implementation type
